@@ -6,7 +6,7 @@ import time
 import numpy as np
 
 from .. import opcat_tensor, opcat_nn, common
-from ..harness import OpCase, T, snapshot
+from ..harness import OpCase, T, snapshot, gradof, set_grad
 from ..symnum import engine as E
 from ..symnum import array as ar
 from .. import runner
@@ -39,7 +39,7 @@ class Scenario:
         g2 = env.arr("h", (3,))
         y.backward(Tn(g2))            # accumulates into x.grad
         out.pair("caller's seed gradient unchanged", snapshot(G.data), snap)
-        out.fact("x.grad does not share memory with the seed", not np.shares_memory(ar.unwrap(x._grad), ar.unwrap(g)))
+        out.fact("x.grad does not share memory with the seed", not np.shares_memory(ar.unwrap(gradof(x)), ar.unwrap(g)))
         return out
 
     def s_seed_reused_twice(self, env):
@@ -53,8 +53,8 @@ class Scenario:
         (a * b).backward(G)
         (a + b).backward(G)
         out.pair("seed gradient unchanged", snapshot(G.data), snap)
-        out.pair("grad(a)", a._grad, g * b.data + g)
-        out.pair("grad(b)", b._grad, g * a.data + g)
+        out.pair("grad(a)", gradof(a), g * b.data + g)
+        out.pair("grad(b)", gradof(b), g * a.data + g)
         return out
 
     def s_views_of_one_array(self, env):
@@ -68,8 +68,8 @@ class Scenario:
         g = env.arr("g", (3,))
         o.backward(Tn(g))
         out.pair("shared buffer unchanged", snapshot(base), snap)
-        out.pair("grad(a)", a._grad, g * b.data + g)
-        out.pair("grad(b)", b._grad, g * a.data)
+        out.pair("grad(a)", gradof(a), g * b.data + g)
+        out.pair("grad(b)", gradof(b), g * a.data)
         return out
 
     def s_tensor_used_by_several_ops(self, env):
